@@ -23,7 +23,23 @@ def esc_char(cp, in_class=False, quote="'"):
     return chr(cp)
 
 
+HAS_PUSH = [True]
+
+
+def has_push(e):
+    if e[0] == "push":
+        return True
+    for x in e[1:]:
+        if isinstance(x, tuple) and has_push(x):
+            return True
+        if isinstance(x, list) and any(isinstance(y, tuple) and has_push(y) for y in x):
+            return True
+    return False
+
+
 def action_text(k, noast):
+    if noast and not HAS_PUSH[0]:
+        return ' p.T = append(p.T, fmt.Sprintf("%%d:", %d)) ' % k
     if noast:
         return ' p.T = append(p.T, fmt.Sprintf("%%d:%%x", %d, text)) ' % k
     return ' p.T = append(p.T, fmt.Sprintf("%%d:%%d:%%d:%%x", %d, begin, end, text)) ' % k
@@ -93,6 +109,7 @@ def pp(e, noast=False, ctx=0):
 def grammar_text(rules, noast=False, header=""):
     """rules: list of (name, expr)."""
     out = [header + "package parser\n\ntype Parser Peg {\n T []string\n N int\n}\n"]
+    HAS_PUSH[0] = any(has_push(e) for _, e in rules)
     for name, e in rules:
         out.append("%s <- %s\n" % (name, pp(e, noast, 0)))
     return "\n".join(out)
@@ -232,6 +249,169 @@ class GGen:
         return rules
 
 
+class GGenBT:
+    """backtracking-heavy grammars: alternatives that share rule-reference prefixes, so that rules are
+    re-entered at the same offset (memo replay), and tokens / captures / actions are produced inside
+    branches that are later abandoned or inside lookahead"""
+
+    def __init__(self, rng):
+        self.rng = rng
+        self.nact = 0
+
+    def act(self):
+        self.nact += 1
+        return ("act", self.nact - 1)
+
+    def grammar(self):
+        r = self.rng
+        nt = r.randint(2, 4)
+        nm = r.randint(1, 4)
+        toks, mids = [], []
+        letters = list(ALPHA)
+        r.shuffle(letters)
+        letters = letters[:r.choice([1, 2, 2, 3])]      # few letters: different token rules match the same text
+        for i in range(nt):
+            c = letters[i % len(letters)]
+            body = ("chr", c) if r.random() < 0.6 else (("cls", False, False, [("r", c, min(c + 1, 100))]) if r.random() < 0.6 else ("dot",))
+            if r.random() < 0.4:
+                body = ("push", body)
+            if r.random() < 0.4:
+                body = ("seq", [body, self.act()])
+            toks.append(("T%d" % i, body))
+        for j in range(nm):
+            pool = [("name", n) for n, _ in toks] + [("name", n) for n, _ in mids]
+            k = r.randint(1, 3)
+            items = [r.choice(pool) for _ in range(k)]
+            if r.random() < 0.3:
+                items[-1] = ("q", items[-1])
+            if r.random() < 0.3:
+                items.append(self.act())
+            body = ("seq", items) if len(items) > 1 else items[0]
+            if r.random() < 0.25:
+                body = ("push", body)
+            if body[0] in ("q", "act"):
+                body = ("seq", [r.choice(pool), body])
+            if r.random() < 0.35:
+                # a choice whose alternatives share their first reference: X Y / X  or  X 'c' / X
+                x = r.choice(pool)
+                second = r.choice(pool) if r.random() < 0.5 else ("chr", r.choice(ALPHA))
+                body = ("alt", [("seq", [x, second]), x if r.random() < 0.7 else ("seq", [x, self.act()])])
+            mids.append(("M%d" % j, body))
+        pool = [("name", n) for n, _ in mids] + [("name", n) for n, _ in toks]
+        alts = []
+        for _ in range(r.randint(2, 4)):
+            pre = [r.choice(pool) for _ in range(r.randint(1, 2))]
+            if alts and r.random() < 0.45:
+                pre = list(r.choice(alts)[1][:-1])          # same prefix as an earlier alternative, other tail
+                pre = [x for x in pre if x[0] == "name"] or [r.choice(pool)]
+            if r.random() < 0.25:
+                pre.insert(0, (r.choice(["and", "not"]), ("seq", [r.choice(pool), ("chr", r.choice(ALPHA + [0x7A]))])))
+            tail = ("chr", r.choice([0x78, 0x79, 0x7A]))
+            alts.append(("seq", pre + [tail]))
+        if r.random() < 0.5:
+            alts.append(r.choice(pool))
+        top = ("alt", alts)
+        if r.random() < 0.5:
+            top = ("plus", top)
+        rules = [("R0", ("seq", [top, ("not", ("dot",))]))] + mids + toks
+        # reachability: reference unreached rules in a guarded optional tail
+        names = [n for n, _ in rules]
+        bodies = dict(rules)
+        reach, todo = {"R0"}, ["R0"]
+
+        def walk(e, acc):
+            if e[0] == "name":
+                acc.add(e[1])
+            for x in e[1:]:
+                if isinstance(x, tuple):
+                    walk(x, acc)
+                elif isinstance(x, list):
+                    for y in x:
+                        if isinstance(y, tuple):
+                            walk(y, acc)
+        while todo:
+            acc = set()
+            walk(bodies[todo.pop()], acc)
+            for u in acc:
+                if u not in reach:
+                    reach.add(u)
+                    todo.append(u)
+        missing = [n for n in names if n not in reach]
+        if missing:
+            tail = [("q", ("seq", [("chr", 0x77), ("name", m)])) for m in missing]
+            rules[0] = ("R0", ("seq", [("seq", [top] + tail), ("not", ("dot",))]))
+        return rules
+
+
+def sample_from(rng, rules, e, depth=0):
+    """a rune list the expression might match (ignores lookahead and predicates)"""
+    t = e[0]
+    bodies = dict(rules)
+    if depth > 12:
+        return []
+    if t == "dot":
+        return [rng.choice(ALPHA + [0x78, 0x79, 0x7A, 10, 0xE9])]
+    if t == "chr":
+        return [e[1]]
+    if t == "str":
+        return list(e[1])
+    if t == "istr":
+        return [c if rng.random() < 0.5 else (c ^ 0x20) for c in e[1]]
+    if t == "cls":
+        _, neg, insens, items = e
+        if neg:
+            cand = [c for c in ALPHA + [0x78, 0x79, 0x7A] if not any((i[0] == "c" and i[1] == c) or (i[0] == "r" and i[1] <= c <= i[2]) for i in items)]
+            return [rng.choice(cand)] if cand else [0x7A]
+        i = rng.choice(items)
+        return [i[1]] if i[0] == "c" else [rng.randint(i[1], i[2])]
+    if t == "name":
+        return sample_from(rng, rules, bodies[e[1]], depth + 1) if e[1] in bodies else []
+    if t in ("pred", "state", "act", "nil", "and", "not"):
+        return []
+    if t == "seq":
+        out = []
+        for x in e[1]:
+            out += sample_from(rng, rules, x, depth + 1)
+        return out
+    if t == "alt":
+        return sample_from(rng, rules, rng.choice(e[1]), depth + 1)
+    if t == "q":
+        return sample_from(rng, rules, e[1], depth + 1) if rng.random() < 0.6 else []
+    if t in ("star", "plus"):
+        out = []
+        for _ in range(rng.randint(0 if t == "star" else 1, 3)):
+            out += sample_from(rng, rules, e[1], depth + 1)
+        return out
+    if t == "push":
+        return sample_from(rng, rules, e[1], depth + 1)
+    return []
+
+
+def grammar_inputs(rng, rules, n):
+    """inputs for a grammar: sampled derivations (mostly accepted), single edits of them (mostly
+    rejected late), and a few uniformly random strings"""
+    outs = [""]
+    pool = ALPHA + [0x78, 0x79, 0x7A, 0x77]
+    while len(outs) < n:
+        c = rng.random()
+        s = sample_from(rng, rules, rules[0][1])[:24]
+        if c < 0.45:
+            pass
+        elif c < 0.8 and s:
+            k = rng.randrange(len(s))
+            m = rng.random()
+            if m < 0.4:
+                s = s[:k] + s[k + 1:]
+            elif m < 0.7:
+                s = s[:k] + [rng.choice(pool)] + s[k + 1:]
+            else:
+                s = s[:k] + [rng.choice(pool + [10, 0xE9, 0x1F600])] + s[k:]
+        else:
+            s = [rng.choice(pool) for _ in range(rng.randint(1, 5))]
+        outs.append("".join(chr(x) for x in s))
+    return outs
+
+
 def sample_inputs(rng, n=20):
     """short strings over the small alphabet (plus a few specials)"""
     outs = [""]
@@ -308,7 +488,7 @@ def pred_index(text):
 
 
 def act_index(text):
-    m = re.search(r'Sprintf\("[^"]*", (\d+),', text)
+    m = re.search(r'Sprintf\("[^"]*", (\d+)[,)]', text)
     if not m:
         raise ConvError("unknown action text %r" % text)
     return int(m.group(1))
